@@ -82,6 +82,14 @@ def check_last_getters(res, n):
         if i % 5 == 3:
             # ... or be long (more than 300 characters, well inside the library's 1024)
             chdir = os.path.join(work, "g%d" % i, "d" * 100, "e" * 100, "f" * 70, "ch")
+        if i % 3 == 1:
+            # subdirectories left by an earlier session (emptied by a ring buffer, or pre-created): the writer moves
+            # into directories that exist already
+            ms0 = cfg.start * cfg.d * 1000 // cfg.n
+            os.makedirs(chdir, exist_ok=True)
+            for j in range(0, 8):
+                os.makedirs(os.path.join(chdir, wl.expected_subdir(cfg, ms0 + j * cfg.sc * 1000)), exist_ok=True)
+            res.count("last_getters_with_preexisting_subdirs")
         reports, w = wl.run_impl(cfg, ops, chdir)
         m = wl.abs_of_history(cfg, ops, reports)
         closing = wl.CLOSINGS[i % len(wl.CLOSINGS)]
